@@ -313,7 +313,7 @@ def _r3(ctx, pkg):
     ctx.check(ok_rep, "R3", "literal replacements", (KR, fn.lineno), "the only literal replacement is Hnuclei -> nH (the registered density symbol)", found=str([(a, b) for a, b, _ in repl]))
     # the converted text is what is returned
     src = ast.unparse(fn)
-    ctx.check("self._kromerateconverter.read(rate)" in src and "f'{self._kromerateconverter:c}'" in src, "R3", "conversion", (KR, fn.lineno),
+    ctx.check(re.search(r"self\._kromerateconverter\.read\(\w+\)", src) is not None and "f'{self._kromerateconverter:c}'" in src, "R3", "conversion", (KR, fn.lineno),
               "the rewritten text is parsed with the Fortran grammar and printed with the C transformer (unparsable text raises)")
 
 
